@@ -100,6 +100,8 @@ pub fn gen(seed: u64, idx: u64, _tier: Tier) -> Case {
         invalid_names: false,
         protect_handles: true,
         max_stream,
+        no_remove_with_open_handles: false,
+        set_len_shrink_only: false,
     };
     let n = gen::draw_len(&mut rng, 60);
     let mut g = Gen::new(&mut rng, &cfg, Model::new(version));
